@@ -80,6 +80,13 @@ func (w *WorkerPool) Start() *WorkerPool {
 		w.mutex.Lock()
 		defer w.mutex.Unlock()
 
+		// remove the shutdown signals of the previous run that were not consumed: a worker also terminates when the
+		// dispatcher channel gets closed, in which case its signal stays in the channel. A worker of the new run would
+		// otherwise stop right away (and cancel or drain tasks although the WorkerPool is running).
+		for len(w.shutdownSignal) > 0 {
+			<-w.shutdownSignal
+		}
+
 		w.isRunning.Store(true)
 
 		w.startDispatcher()
